@@ -9,7 +9,7 @@ pub fn prop() -> Prop {
     Prop {
         id: "C05",
         level: "exploration",
-        rule: "payloads from an independent PWB v2 encoder: all 79 single-channel masks and all 79 all-but-one masks x requested_samples {0,1,2,3,510,511}, full mask, random masks, rs {512,600,65535}, every value 0..=255 of version/chip/compression/trigger bytes and bytes 18-19, last_sca_cell {0,511,512}, bit 79 of each mask, per-block index off by one / swapped blocks / wrong size field, non-zero pad word, end-marker variants, length +-1..4, MAC variants, random byte mutations. Library vs reference decision; accepted packets compared accessor by accessor (channels_sent, channels_over_threshold, waveform_at for all 79 ids) and re-encoded. Non-trivial = distinct inputs passing the fixed-header checks (version, chip, compression, trigger, MAC, zero bytes). Also: every pair of sent channels (3 081 masks), three-channel masks, bad end markers at sample counts 0/1/2 and with an empty mask, block size / index fields with high bits set, alignment independence. Round 4: whole blocks too many / too few (copies, well-formed blocks of channels in / not in the mask, zero and 0xCC filler; 1..256 blocks; front, middle, end); every mask bit toggled with the blocks unchanged; every pair of numeric header fields over 8 boundary values each (and trigger delay against trigger timestamp: smaller, equal, larger); header fields at source constants jointly with one more header bit / byte. Round 5: both 16-bit words heading every block in other encodings of their value (negated, complemented, byte-swapped, sign bit). Round 6: masks of every population count 0..=79 (reset channels in / out together); sample values that look like structure (0xCCCC runs, header-like words).",
+        rule: "payloads from an independent PWB v2 encoder: all 79 single-channel masks and all 79 all-but-one masks x requested_samples {0,1,2,3,510,511}, full mask, random masks, rs {512,600,65535}, every value 0..=255 of version/chip/compression/trigger bytes and bytes 18-19, last_sca_cell {0,511,512}, bit 79 of each mask, per-block index off by one / swapped blocks / wrong size field, non-zero pad word, end-marker variants, length +-1..4, MAC variants, random byte mutations. Library vs reference decision; accepted packets compared accessor by accessor (channels_sent, channels_over_threshold, waveform_at for all 79 ids) and re-encoded. Non-trivial = distinct inputs passing the fixed-header checks (version, chip, compression, trigger, MAC, zero bytes). Also: every pair of sent channels (3 081 masks), three-channel masks, bad end markers at sample counts 0/1/2 and with an empty mask, block size / index fields with high bits set, alignment independence. Round 4: whole blocks too many / too few (copies, well-formed blocks of channels in / not in the mask, zero and 0xCC filler; 1..256 blocks; front, middle, end); every mask bit toggled with the blocks unchanged; every pair of numeric header fields over 8 boundary values each (and trigger delay against trigger timestamp: smaller, equal, larger); header fields at source constants jointly with one more header bit / byte. Round 5: both 16-bit words heading every block in other encodings of their value (negated, complemented, byte-swapped, sign bit). Round 6: masks of every population count 0..=79 (reset channels in / out together); sample values that look like structure (0xCCCC runs, header-like words). Round 7: the forbidden bit 79 alone in either mask; bytes 18-19 non-zero next to boundary values of the 48-bit timestamp.",
         assumptions: &["reference PWB v2 codec and the readout-index kind table (harness/src/refs.rs) transcribe the statement"],
         profiles: both,
         shards: shards16,
